@@ -1,6 +1,7 @@
 import Driver.Loop
 import Midgard.Model.RinexNav
 import Midgard.Generated.RinexNavCols
+import Midgard.Spec.RinexNavFile
 
 /-! Driver for C12 (RINEX navigation).
 
@@ -8,6 +9,17 @@ import Midgard.Generated.RinexNavCols
     c12 rinex2_nav   <ext-char> <hexfile>   (system from the last character of the file extension)
     c12 rinex212_nav <ext-char> <hexfile>
     c12 float <hex>                      `_float`
+
+    c12 model3 <tokens of an abstract file>   → {"wf":…,"thm":…,"text":<hex of render3 F>,"cols":…}: the abstract
+                                         file of `Spec/RinexNavFile.lean` rendered by the spec writer, read by
+                                         `accumV3` and compared with `expectedState` (`thm` = the instance of
+                                         `file_records_v3`), then post-processed by `postV3` (`cols`)
+    c12 model2 <parser> <tokens>           the same through `render2` / `accumV2` / `postV2` (RINEX 2 GPS files,
+                                         `file_records_v2`; satsys and systext are not printed)
+      wire: version ftype satsys systext (hex)  n n×(content label)  n n×item
+            item = N sys prn zero y mo d h mi s c1 c2 c3 6×(a b c d cut) a b n n×spare cut
+                 | S sys prn y mo d h mi s c1 c2 c3 n n×(n n×cell cut)
+            cell = _ (blank) | x:lead:neg:m:e
 
 Answers: JSON list of `[hex name, kind, values]`, kind `f` (exact rationals / null), `s` (hex text),
 `t` (exact GPS seconds).  `RAISES` = the model says the real code raises. -/
@@ -31,6 +43,62 @@ def showCols (d : Cols) : String :=
 def systemOfExt : String → Option String
   | "n" => some "G" | "g" => some "R" | "l" => some "E" | _ => Option.none
 
+
+namespace Wire
+open Midgard.Spec.RinexNavFile
+
+abbrev P := StateT (List String) Option
+
+def tok : P String := fun ts => match ts with | t :: r => some (t, r) | [] => Option.none
+def hex : P Str := do let t ← tok; (decodeHex? t).map ofString
+def chr : P Char := do match (← hex) with | [c] => pure c | _ => failure
+def nat : P Nat := do let t ← tok; t.toNat?
+def bool : P Bool := do let t ← tok; parseBool? t
+def many {α} (p : P α) : Nat → P (List α)
+  | 0 => pure []
+  | n + 1 => do let a ← p; let r ← many p n; pure (a :: r)
+def counted {α} (p : P α) : P (List α) := do let n ← nat; many p n
+
+def num19 : P Num19 := do
+  let t ← tok
+  if t = "_" then pure .blank else
+  match t.splitOn ":" with
+  | [x, lead, neg, m, e] => do
+    let xc ← match x.toList with | [c] => pure c | _ => failure
+    let l ← parseBool? lead; let n ← parseBool? neg
+    let mm ← m.toNat?; let ee ← e.toInt?
+    pure (.sci xc l n mm ee)
+  | _ => failure
+
+def row4 : P Row4 := do
+  let a ← num19; let b ← num19; let c ← num19; let d ← num19; let cut ← bool
+  pure ⟨a, b, c, d, cut⟩
+
+def item : P Item := do
+  match (← tok) with
+  | "N" => do
+    let sys ← chr; let prn ← nat; let z ← bool
+    let y ← nat; let mo ← nat; let d ← nat; let h ← nat; let mi ← nat; let s ← nat
+    let c1 ← num19; let c2 ← num19; let c3 ← num19
+    let o1 ← row4; let o2 ← row4; let o3 ← row4; let o4 ← row4; let o5 ← row4; let o6 ← row4
+    let a ← num19; let b ← num19; let spare ← counted num19; let cut ← bool
+    pure (.nav ⟨sys, prn, z, y, mo, d, h, mi, s, c1, c2, c3, o1, o2, o3, o4, o5, o6, ⟨a, b, spare, cut⟩⟩)
+  | "S" => do
+    let sys ← chr; let prn ← nat
+    let y ← nat; let mo ← nat; let d ← nat; let h ← nat; let mi ← nat; let s ← nat
+    let c1 ← num19; let c2 ← num19; let c3 ← num19
+    let rows ← counted (do let cells ← counted num19; let cut ← bool; pure (cells, cut))
+    pure (.skip ⟨sys, prn, y, mo, d, h, mi, s, c1, c2, c3, rows⟩)
+  | _ => failure
+
+def file : P NavFile := do
+  let v ← hex; let t ← hex; let sys ← chr; let st ← hex
+  let hl ← counted (do let c ← hex; let l ← hex; pure (⟨c, l⟩ : HLine))
+  let items ← counted item
+  pure ⟨v, t, sys, st, hl, items⟩
+
+end Wire
+
 def handle : List String → Option String
   | ["c12", "rinex3_nav", _, h] => do
     let t ← (decodeHex? h).map ofString
@@ -43,6 +111,28 @@ def handle : List String → Option String
     let t ← (decodeHex? h).map ofString
     let s ← systemOfExt x
     pure ((parseV2 Midgard.Generated.RinexNav.v212 s t).elim "RAISES" showCols)
+  | "c12" :: "model3" :: toks => do
+    let (f, rest) ← Wire.file toks
+    if !rest.isEmpty then failure
+    let text := Midgard.Spec.RinexNavFile.render3 f
+    let acc := accumV3 Midgard.Generated.RinexNav.v3 text
+    let thm := decide (acc = some ([f.satSys], Midgard.Spec.RinexNavFile.expectedState f.items))
+    let cols := acc.bind fun (sys, st) => postV3 Midgard.Generated.RinexNav.v3 sys st
+    pure ("{\"wf\":" ++ (if f.wf then "true" else "false") ++ ",\"thm\":" ++ (if thm then "true" else "false") ++
+      ",\"text\":\"" ++ encodeHex (asString text) ++ "\",\"cols\":" ++ (cols.elim "\"RAISES\"" showCols) ++ "}")
+  | "c12" :: "model2" :: parser :: toks => do
+    let T ← match parser with
+      | "rinex2_nav" => some Midgard.Generated.RinexNav.v2
+      | "rinex212_nav" => some Midgard.Generated.RinexNav.v212
+      | _ => Option.none
+    let (f, rest) ← Wire.file toks
+    if !rest.isEmpty then failure
+    let text := Midgard.Spec.RinexNavFile.render2 f
+    let acc := accumV2 T "G" text
+    let thm := decide (acc = some (Midgard.Spec.RinexNavFile.expectedState f.items))
+    let cols := acc.bind fun st => postV2 T "G" st
+    pure ("{\"wf\":" ++ (if f.wf2 then "true" else "false") ++ ",\"thm\":" ++ (if thm then "true" else "false") ++
+      ",\"text\":\"" ++ encodeHex (asString text) ++ "\",\"cols\":" ++ (cols.elim "\"RAISES\"" showCols) ++ "}")
   | ["c12", "float", h] => do
     let t ← (decodeHex? h).map ofString
     pure ((floatField t).elim "RAISES" showRat)
